@@ -49,6 +49,10 @@ func (q *QueryRangeController) QueryRange(w http.ResponseWriter, r *http.Request
 		PromError(400, err.Error(), w)
 		return
 	}
+	if limit < 0 {
+		PromError(400, "limit must be a positive value", w)
+		return
+	}
 	if int64(step*1000) <= 0 {
 		PromError(400,
 			"zero or negative query resolution step widths are not accepted. Try a positive integer", w)
@@ -145,6 +149,10 @@ func (q *QueryRangeController) Query(w http.ResponseWriter, r *http.Request) {
 	}
 	if err != nil {
 		PromError(400, err.Error(), w)
+		return
+	}
+	if limit < 0 {
+		PromError(400, "limit must be a positive value", w)
 		return
 	}
 	if int64(step*1000) <= 0 {
